@@ -411,6 +411,15 @@ Section Served.
       end
     end.
 
+  (** handleProppatch + backend.PropPatch: DecodeXMLRequest of the propertyupdate body
+      ([pf r = PfBad] when it fails: not an XML media type, or not decodable), then
+      "PROPPATCH is unsupported" *)
+  Definition do_proppatch (sb : option node) (r : request) : option node * response :=
+    match pf r with
+    | PfBad => (sb, err_resp {| ecode := 400; eleak := false |})
+    | _ => (sb, err_resp {| ecode := 403; eleak := false |})
+    end.
+
   (** internal/server.go Handler.ServeHTTP *)
   Definition serve (sb : option node) (r : request) : option node * response :=
     let m := meth r in
@@ -422,6 +431,7 @@ Section Served.
     else if String.eqb m "PROPFIND" then do_propfind sb r
     else if String.eqb m "MKCOL" then do_mkcol sb r
     else if String.eqb m "COPY" || String.eqb m "MOVE" then do_copy_move sb r
+    else if String.eqb m "PROPPATCH" then do_proppatch sb r
     else (sb, err_resp {| ecode := 405; eleak := false |}).
 
   (** A history: the state after each request feeds the next. *)
